@@ -55,6 +55,14 @@ def build_impl(extra_cflags='', stage2=False):
         raise BuildFailed(out + err)
     return dst
 
+def link_harness(src, harness_c, out):
+    """link a harness against every object of the scratch build (main() of main.c renamed)"""
+    wd = os.path.dirname(out)
+    objs = ' '.join(os.path.join(src, f[:-2] + '.o') for f in sorted(os.listdir(src)) if f.endswith('.c') and f != 'main.c')
+    rc, o, e = sh('gcc -c -O1 -w -D%s -Dmain=chibicc_main -o %s/main_r.o %s/main.c && gcc -O1 -w -I%s -o %s %s %s/main_r.o %s' % (
+        GUARD, wd, src, src, out, harness_c, wd, objs))
+    return rc == 0, e
+
 class BuildFailed(Exception):
     pass
 
@@ -155,3 +163,92 @@ def coq_errors(log):
         if l.startswith('File ') and i + 1 < len(ls) and 'Error' in ls[i + 1]:
             out.append(l.strip() + ' ' + ' '.join(x.strip() for x in ls[i + 1:i + 4]))
     return ' | '.join(out)[:900]
+
+
+class Run:
+    """Book-keeping common to all checks: violations (filtered through known_findings.jsonl),
+    broken proof obligations / correspondences, evidence, exit status."""
+    def __init__(self, pid, theorems, tier=None):
+        self.pid, self.theorems = pid, theorems
+        self.tier = tier or (sys.argv[1] if len(sys.argv) > 1 else os.environ.get('VERIF_TIER', 'quick'))
+        if self.tier not in ('quick', 'thorough'):
+            self.tier = 'quick'
+        self.t0 = time.time()
+        self.violations, self.proof_broken, self.corr_broken = [], [], []
+        self.known = load_known(pid)
+        self.known_hits = {}
+        self.cq = dict(ok=False, closed=0, axioms=[], log='')
+        self.rng = random.Random(seed() * 1000003 + sum(ord(c) for c in pid))
+        reset_replays(pid)
+
+    def quick(self):
+        return self.tier == 'quick'
+
+    def match_known(self, features):
+        for k in self.known:
+            if k.get('status') != 'open':
+                continue
+            m = k.get('match') or {}
+            if m and all(features.get(a) == b if not isinstance(b, list) else features.get(a) in b for a, b in m.items()):
+                return k
+        return None
+
+    def violation(self, v, features=None):
+        """record a violation unless it is a listed known finding (matched on its features)"""
+        k = self.match_known(features or {}) if features else None
+        if k is not None:
+            self.known_hits[k['id']] = self.known_hits.get(k['id'], 0) + 1
+            return False
+        if features:
+            v = dict(v); v['features'] = features
+        self.violations.append(v)
+        return True
+
+    def check_proofs(self, deps=()):
+        self.cq = coq_check_properties(self.pid, deps=deps)
+        if not self.cq['ok']:
+            self.proof_broken.append('Properties_%s.v does not check: %s' % (self.pid, coq_errors(self.cq['log']) or self.cq['log'][-600:]))
+        return self.cq['ok']
+
+    def proof_cov(self):
+        return dict(obligations=len(self.theorems), discharged=len(self.theorems) if self.cq['ok'] else 0,
+                    checker_cmd='make -C /verif/coq + coqc theories/Properties/Properties_%s.v (Coq 8.16.1, full .vo build, re-checked on this run)' % self.pid,
+                    print_assumptions_closed=self.cq['closed'], axioms=self.cq['axioms'], theorems=self.theorems)
+
+    def finish(self, cov, assumptions, trusted_base):
+        pid = self.pid
+        rc, nv = 0, 0
+        c = self.proof_cov(); c.update(cov); cov = c
+        cov['trusted_base'] = trusted_base
+        for v in self.violations[:8]:
+            p = write_replay(pid, 'violation_%d.json' % nv, v); nv += 1
+            print('VIOLATION property=%s replay=%s' % (pid, p)); rc = 1
+        if not self.violations and (self.proof_broken or self.corr_broken):
+            p = write_replay(pid, 'unproved.json', dict(proof_obligations_broken=self.proof_broken, correspondence_broken=self.corr_broken,
+                             note='the search found no concrete failing input; the property is no longer shown to hold'))
+            print('VIOLATION property=%s replay=%s no-failing-input-found' % (pid, p)); rc = 1; nv += 1
+        for k in self.known:
+            if k.get('status') == 'open':
+                print('KNOWN-FINDING: property=%s %s%s' % (pid, k['what'], ' [reproduced %d times in this run]' % self.known_hits[k['id']] if k['id'] in self.known_hits else ''))
+        cov['proof_obligations_broken'] = self.proof_broken; cov['correspondence_broken'] = self.corr_broken[:5]
+        cov['known_findings_reproduced'] = self.known_hits
+        cov.setdefault('evaluations', 0); cov.setdefault('distinct_nontrivial', 0)
+        write_evidence(pid, self.tier, 'proof', cov, time.time() - self.t0, nv, assumptions)
+        print('%s %s: %s (%d evaluations, %.1fs)' % (pid, self.tier, 'OK' if rc == 0 else 'FAILED', cov.get('evaluations', 0), time.time() - self.t0))
+        return rc
+
+def compile_run(cc, src_file, exe, args=(), timeout=120, run_timeout=20):
+    """compile a C file with the given compiler command list and run it; returns (status, stdout)
+    status: 'ok' | 'compile-fail:<msg>' | 'run-fail:<rc>'"""
+    rc, out, err = sh(list(cc) + ['-o', exe, src_file] + list(args), timeout=timeout)
+    if rc != 0:
+        return 'compile-fail:rc=%d %s' % (rc, (err.strip().split('\n') or [''])[-1][:300]), ''
+    rc, out, err = sh([exe], timeout=run_timeout)
+    if rc != 0:
+        return 'run-fail:%d' % rc, out
+    return 'ok', out
+
+def pmap(fn, items, workers=16):
+    from concurrent.futures import ThreadPoolExecutor
+    with ThreadPoolExecutor(max_workers=workers) as ex:
+        return list(ex.map(fn, items))
